@@ -108,6 +108,26 @@ def run(ck, facts, tier):
     # injective matching in which every site sits under at least as many dominating guards as its reviewed counterpart.
     absorbed, absorbed_fns = absorb_helpers(P, R, fams, {f for f, _ in tab})
     ck.extra["absorbed_helpers"] = sorted(absorbed_fns)
+    # sites hoisted from a reviewed function into its only caller (a precondition assert moved up one level): the caller may draw on the callee's unused
+    # budget of the same kind, when that row needs no dominating guard
+    used = {}
+    for fam_, members_ in fams.items():
+        for name_, per_ in members_:
+            for kind_, sites_ in per_.items():
+                used[(fam_, kind_)] = used.get((fam_, kind_), 0) + len(sites_)
+    spare = {k_: len(e_["ctrl"]) - used.get(k_, 0) for k_, e_ in tab.items() if not any(e_["ctrl"])}
+    callers_of = {}
+    for f_ in R:
+        for tgt in P.callees(f_)[0]:
+            if cc.root_of(tgt) != cc.root_of(f_):
+                callers_of.setdefault(cc.family(tgt), set()).add(cc.family(f_))
+
+    def hoisted_from(fam_, kind_):
+        for tgt in sorted({cc.family(t_) for f_ in R if cc.family(f_) == fam_ for t_ in P.callees(f_)[0]}):
+            if tgt != fam_ and spare.get((tgt, kind_), 0) > 0 and callers_of.get(tgt) == {fam_}:
+                spare[(tgt, kind_)] -= 1
+                return tgt
+        return None
     for fam, members in sorted(fams.items()):
         roots = {}
         for name, per in members:
@@ -133,6 +153,11 @@ def run(ck, facts, tier):
                         # no reviewed row, but safe by the shape of the counted loop it sits in (rules/bounds.py): `c[i + C]` inside `for i in A..c.len() + D`
                         ck.ok(r1, key, sample="discharged by the affine-index rule: index within the bounds of its counted loop")
                         continue
+                    if n >= len(budget):
+                        src_ = hoisted_from(fam, kind)
+                        if src_ is not None:
+                            ck.ok(r1, key, sample="covered by the unused reviewed budget of its callee %s (site hoisted into the only caller)" % src_)
+                            continue
                     if n >= len(budget):
                         ck.fail(r1, key, "unreviewed panic edge `%s` reachable from a fallible/total entry point (in %s%s): %d site(s), %d reviewed"
                                 % (kind, root, via, len(sites), len(budget)), where, "path: " + " <- ".join(call_path(P, root)))
